@@ -1,3 +1,3 @@
 ; Base definitions shared by every mathematical-reading VC.
 (define-sort Idx () Int)
-(define-fun str.equal ((a Str) (b Str)) Bool (= a b))
+(define-fun gostr.equal ((a Str) (b Str)) Bool (= a b))
